@@ -354,6 +354,66 @@ func splitBrainScenario(r *rng, viol func(clause, sig, detail string)) *simResul
 		desc: map[string]any{"scenario": "split-brain at the quorum boundary", "nodes": 3, "powers": pw, "byzantine": byz, "votes": len(g.votes), "byz_votes": bv, "max_round": g.maxRound(), "all_decided": decided}}
 }
 
+// late-QUALITY scenario (no Byzantine message at all): one member is crash-silent, so EVERY remaining member is needed for a
+// strong quorum; the QUALITY votes addressed to the smallest member arrive just after its QUALITY timeout (it has trimmed
+// its proposal to the base by then); nothing is lost and the network is timely from then on.  The late QUALITY quorum
+// must make the common input acceptable to that member, or the honest PREPAREs stay split round after round.
+func lateQualityScenario(r *rng, viol func(clause, sig, detail string)) *simResult {
+	big := []int64{333, 1000, 50, 7}[r.intn(4)]
+	pw := []int64{big, big, 1, big}
+	byz := []bool{false, false, false, true} // crash-silent: never sends anything
+	perm := shuffled(r, 4)
+	powers := make([]int64, 4)
+	bz := make([]bool, 4)
+	victim := 0
+	for i, p := range perm {
+		powers[i] = pw[p]
+		bz[i] = byz[p]
+		if p == 2 {
+			victim = i
+		}
+	}
+	in := mkChain("lq", 1+r.intn(3))
+	inputs := []*gpbft.ECChain{in, in, in, in}
+	delta := 2 * time.Second
+	cfg := gnetCfg{n: 4, powers: powers, byz: bz, inputs: inputs, delta: delta}
+	g := newGnet(r, cfg, viol)
+	// QUALITY timeout is 2*delta; the late votes arrive 5%..50% after it
+	late := 2*delta + time.Duration(int64(delta)/10+r.i64n(int64(delta)))
+	onlyOne := r.chance(30)
+	first := -1
+	g.delay = func(from, to int, msg *gpbft.GMessage) (time.Duration, bool) {
+		if to == victim && msg.Vote.Phase == gpbft.QUALITY_PHASE {
+			if first < 0 {
+				first = from
+			}
+			if !onlyOne || from == first {
+				return late, true
+			}
+		}
+		return time.Duration(r.i64n(int64(delta)/4 + 1)), true
+	}
+	for i := range g.nodes {
+		g.start(i)
+	}
+	g.stopAt = g.now.Add(late + time.Millisecond)
+	g.run(100000, nil)
+	g.stopAt = time.Time{}
+	g.stabilised = true
+	roundAtStab := g.maxRound()
+	decided := g.run(60000, nil)
+	g.checkDecisions()
+	dl := false
+	for _, l := range g.log {
+		if strings.HasPrefix(l, "deadlock") {
+			dl = true
+		}
+	}
+	return &simResult{g: g, decided: decided, byzVotes: 0, roundAtStab: roundAtStab, deadlock: dl && !decided, budget: !decided && !dl,
+		desc: map[string]any{"scenario": "QUALITY votes reach the smallest member just after its QUALITY timeout; one member crash-silent; no Byzantine message", "nodes": 4, "powers": powers, "crash_silent": bz, "victim": victim,
+			"late_by": late.String(), "only_one_vote_late": onlyOne, "input_len": in.Len(), "votes": len(g.votes), "byz_votes": 0, "max_round": g.maxRound(), "all_decided": decided}}
+}
+
 // foreign-value sway attempt: the honest participants share one input; QUALITY votes reach only some of them, so their
 // round-0 PREPAREs split (input vs base) and everybody commits bottom at the timeout; COMMITs between honest participants
 // are slow.  The Byzantine member (just under one third) aggregates the COMMITs for bottom it sees on the wire into a valid
